@@ -1028,6 +1028,9 @@ func (ev *Ev) stepField(cur Value, i int, pos token.Pos) Value {
 				}
 			})
 		}
+		if !strings.Contains(cur.T, "$") {
+			ev.wellFormedRead(fv)
+		}
 		return fv
 	}
 	st, ok := structOf(t)
@@ -1334,7 +1337,28 @@ func (ev *Ev) readLV(lv *LValue) Value {
 			}
 		})
 	}
+	if lv.K != lvLocal && lv.K != lvBlank {
+		ev.wellFormedRead(v)
+	}
 	return v
+}
+
+// wellFormedRead: a pointer, map or channel read from memory is nil or allocated (well-formed heap).
+func (ev *Ev) wellFormedRead(v Value) {
+	if ev.spec {
+		return
+	}
+	as := arraySort(SRef, SBool)
+	walkValue(v, "", func(path string, l Value) {
+		if l.S != SRef || l.K != vScalar || l.T == "nil" || strings.Contains(l.T, "$") || l.Typ == nil {
+			return
+		}
+		switch l.Typ.Underlying().(type) {
+		case *types.Pointer, *types.Map, *types.Chan:
+			ev.u.famSort("alloc", as)
+			ev.st.assume(or(app("=", l.T, "nil"), app("select", ev.u.fam(ev.st, "alloc", as), l.T)))
+		}
+	})
 }
 
 func (ev *Ev) readLV0(lv *LValue) Value {
@@ -1829,6 +1853,7 @@ func (ev *Ev) compositeLit(x *ast.CompositeLit, addr bool) Value {
 		})
 		u.zeroWaitGroups(ev.st, t, ref)
 		u.checkTypeInvAlloc(ev, t, ref)
+		u.allocT[ref] = t
 		return scalar(ref, SRef, types.NewPointer(t))
 	}
 	return v
